@@ -1,10 +1,10 @@
 (* C05 — Concurrent use keeps frames atomic, messages unmixed and is free of data races.
-   Statements only; proofs in Proofs/SchedP.v.  The model (Model/Sched.v) is the small-step interleaving semantics of
+   Statements only; proofs in Proofs/SchedP.v and Proofs/SchedAckP.v.  The model (Model/Sched.v) is the small-step interleaving semantics of
    the write side's synchronisation skeleton: any number of goroutines calling Write / Writer / Ping / Close / CloseNow
    (and the read side echoing a Close frame), one micro-step at a time in ANY order, with the connection closable from
    outside at any moment.  Every theorem quantifies over ALL schedules, thread counts and programs. *)
 From Coq Require Import List Arith Bool.
-From WS Require Import Model.Sched Proofs.SchedP.
+From WS Require Import Model.Sched Proofs.SchedP Proofs.SchedAckP.
 Import ListNotations.
 
 (* each frame is written atomically: a transport write continues the frame of the previous write, or — only after that
@@ -39,3 +39,25 @@ Example C05_nonvacuous :
   map (fun e => (e_tid e, e_part e)) (wire s) = [(1, 0); (1, 1); (1, 2); (2, 0); (2, 1); (1, 0); (0, 0); (0, 1); (3, 0)] /\ closed s = true /\
   frames_atomic None (wire s) = true /\ msgs_unmixed None (wire s) = true /\ after_close None (wire s) = true.
 Proof. vm_compute. repeat split. Qed.
+
+
+(* ACKNOWLEDGEMENT: under every schedule, a Write / Writer message that returned nil is on the wire — every transport write of
+   every one of its frames, with the right first / fin flags, and nothing of it twice (exactly (k+1)*(parts+1) writes). *)
+Theorem C05_acked_on_wire : forall is_client progs sched t n k parts,
+  let s := run (init is_client progs) sched in
+  nth_error (progs t) n = Some (CMsg k parts) ->
+  n < ncall (thrs s t) ->
+  nth (ncall (thrs s t) - 1 - n) (results (thrs s t)) false = true ->
+  (forall fi p, fi <= k -> p <= parts ->
+     exists e, In e (wire s) /\ e_tid e = t /\ e_call e = n /\ e_frame e = fi /\ e_part e = p /\ e_kind e = FData /\
+               e_first e = (fi =? 0) /\ e_fin e = (fi =? k) /\ e_last e = (p =? parts)) /\
+  length (filter (fun e => (e_tid e =? t) && (e_call e =? n)) (wire s)) = (k + 1) * (parts + 1).
+Proof. exact sched_acked_on_wire. Qed.
+Print Assumptions C05_acked_on_wire.
+
+(* ... and nothing is on the wire for a call that has not been started *)
+Theorem C05_wire_started : forall is_client progs sched e,
+  let s := run (init is_client progs) sched in
+  In e (wire s) -> e_call e <= ncall (thrs s (e_tid e)).
+Proof. exact sched_wire_started. Qed.
+Print Assumptions C05_wire_started.
